@@ -22,7 +22,7 @@ fn main() {
     for h in 0..n_hist {
         let len = rng.range(6, if thorough { 40 } else { 24 }) as usize;
         let ops = e1::gen_history(&mut rng, len, &mut next_id);
-        let cfg = Cfg { threads: 1 + (h % 3), merge_policy: (h % 2) as u8 };
+        let cfg = Cfg { threads: 1 + (h % 3), merge_policy: (h % 2) as u8, stop_on_error: false };
         let vd = VerifDirectory::new();
         let res = e1::run_history(&vd, &ops, &cfg, false);
         let desc = json!({"history": ops.iter().map(|o| o.to_json()).collect::<Vec<_>>(), "threads": cfg.threads, "merge_policy": cfg.merge_policy});
@@ -63,7 +63,7 @@ fn main() {
         // spec: crash at sampled points x outcomes, recovered by the real code
         let mut points: BTreeSet<usize> = BTreeSet::new();
         for (i, e) in log.iter().enumerate() {
-            let interesting = (e.kind == OpKind::Marker && (e.path == "commit_ret" || e.path == "merge_ret"))
+            let interesting = (e.kind == OpKind::Marker && (e.path.starts_with("commit_ret") || e.path == "merge_ret"))
                 || (e.kind == OpKind::AtomicWrite && e.path == "meta.json") || e.kind == OpKind::Delete;
             if interesting { for d in 0..3usize { if rng.chance(if thorough { 2 } else { 1 }, 3) { points.insert((i + d).min(log.len())); } } }
         }
